@@ -650,6 +650,44 @@ def normalise_loops(stmts: list[ast.stmt]) -> list[ast.stmt]:
     return rec(stmts)
 
 
+def unroll_literal_loops(stmts: list[ast.stmt]) -> list[ast.stmt]:
+    """for T in (A, B, C): BODY   ->   T = A; BODY; T = B; BODY; T = C; BODY      (a literal sequence of at most 6 items, BODY without
+    break / continue of this loop): a table-driven loop and its written-out cases coincide"""
+    out: list[ast.stmt] = []
+    for s in stmts:
+        for fld in ("body", "orelse", "finalbody"):
+            b = getattr(s, fld, None)
+            if isinstance(b, list) and b and isinstance(b[0], ast.stmt) and not isinstance(s, (ast.FunctionDef, ast.AsyncFunctionDef, ast.ClassDef)):
+                setattr(s, fld, unroll_literal_loops(b))
+        if isinstance(s, ast.Try):
+            for h in s.handlers:
+                h.body = unroll_literal_loops(h.body)
+        if isinstance(s, ast.For) and isinstance(s.iter, (ast.Tuple, ast.List)) and 1 <= len(s.iter.elts) <= 6 and not s.orelse \
+                and not any(isinstance(e, ast.Starred) for e in s.iter.elts):
+            def own(kinds):
+                found = []
+
+                def walk(n):
+                    if isinstance(n, kinds):
+                        found.append(n)
+                    for c in ast.iter_child_nodes(n):
+                        if not isinstance(c, (ast.For, ast.While, ast.FunctionDef, ast.AsyncFunctionDef, ast.Lambda, ast.ClassDef)):
+                            walk(c)
+                for b_ in s.body:
+                    walk(b_)
+                return found
+            if not own((ast.Break, ast.Continue)):
+                for e in s.iter.elts:
+                    bind = ast.Assign(targets=[copy.deepcopy(s.target)], value=copy.deepcopy(e))
+                    ast.copy_location(bind, s)
+                    ast.fix_missing_locations(bind)
+                    out.append(bind)
+                    out += [copy.deepcopy(b_) for b_ in s.body]
+                continue
+        out.append(s)
+    return out
+
+
 def fuse_for_over_comp(stmts: list[ast.stmt], pure_calls=()) -> list[ast.stmt]:
     """for T in [E for V in S if C]: BODY   ->   for V in S: if C: T = E; BODY
     when the comprehension only reads (pure) and BODY neither rebinds nor writes through anything it reads: building the list
